@@ -1865,7 +1865,6 @@ package desync
 
 //# bst lays a sorted list out as a complete binary search tree. e is the height: the list is empty, or has between
 //# 2^(e-1) (last level holds one node) and 2^e - 1 (perfect tree) elements; p = 2^(e-1).
-//@ ghost var $bstw int
 //# size of the left subtree of a complete binary search tree of n nodes and height e (its last level filled from the left)
 //@ spec func bstLeft(n int, e int) int = ite(n >= pow2(e-1) - 1 + pow2(e-1)/2, pow2(e-1) - 1, n - pow2(e-1)/2)
 //@ func bst
@@ -1884,15 +1883,12 @@ package desync
 //# the array for every list length (no bound) and is re-established for both halves.
 //# structure of the recursion (unbounded): the element at the split index - the size of the left subtree of a complete
 //# tree of len(in) nodes - goes to out[i], the part of the list before it to the subtree at 2i+1, the part behind it to
-//# the subtree at 2i+2, one level lower, same output array; a call stores exactly as many elements as its list holds.
+//# the subtree at 2i+2, one level lower, same output array.
 //# (That no store is overwritten later - heap indices reached by different paths differ - is not stated here; the
 //# layout as a whole stays with the bounded unit.)
 //@   requires base(in) != base(out)
-//@   ghost@elemstore:out $bstw = $bstw + 1
-//@   modifies $bstw
 //@   oncall bst#1: requires $arg0 == in[:bstLeft(len(in), e)] && $arg1 == out && $arg2 == 2*i + 1 && $arg3 == e - 1
 //@   oncall bst#2: requires $arg0 == in[bstLeft(len(in), e)+1:] && $arg1 == out && $arg2 == 2*i + 2 && $arg3 == e - 1
-//@   ensures $bstw == old($bstw) + len(in)
 //@   assert@elemstore:out $k == i && out[i] == in[bstLeft(len(in), e)]
 
 //@ func makeGoodbyeBST
